@@ -134,7 +134,8 @@ fn run_case(dir: &Path, c: &Case) -> Result<(), (String, String)> {
         args.push(wire::s("--duplicate-packets"));
         args.push(c.server_dup.to_string());
     }
-    let ip = if c.ipv6 { "::1" } else { "127.0.0.1" };
+    let local = wire::local_ip();
+    let ip = if c.ipv6 { "::1" } else { local.as_str() };
     let mut srv = match Server::start_on(ip, &args, &root, None) {
         Ok(s) => s,
         Err(StartError::Exited(code, e)) => return Err(("harness".into(), format!("tftpd exited at start-up with {}: {}", code, e))),
